@@ -355,6 +355,8 @@ class UTPM(Ring, RawAlgorithmsMixIn):
             return UTPM(z_data)
 
         else:
+            if not isinstance(rhs, UTPM):
+                return NotImplemented     # e.g. a traced value: Python tries its reflected operator
             x_data, y_data = UTPM._broadcast_arrays(self.data, rhs.data)
             return UTPM(x_data + y_data)
 
@@ -387,6 +389,8 @@ class UTPM(Ring, RawAlgorithmsMixIn):
             return UTPM(z_data)
 
         else:
+            if not isinstance(rhs, UTPM):
+                return NotImplemented     # e.g. a traced value: Python tries its reflected operator
             x_data, y_data = UTPM._broadcast_arrays(self.data, rhs.data)
             return UTPM(x_data - y_data)
 
@@ -410,6 +414,8 @@ class UTPM(Ring, RawAlgorithmsMixIn):
             x_data, y_data = UTPM._broadcast_arrays(self.data, rhs.reshape((1,1)+rhs_shape))
             return UTPM(x_data * y_data)
 
+        if not isinstance(rhs, UTPM):
+            return NotImplemented     # e.g. a traced value: Python tries its reflected operator
         x_data, y_data = UTPM._broadcast_arrays(self.data, rhs.data)
         dtype = numpy.promote_types(x_data.dtype, y_data.dtype)
         z_data = numpy.zeros(x_data.shape, dtype=dtype)
@@ -437,6 +443,8 @@ class UTPM(Ring, RawAlgorithmsMixIn):
             x_data, y_data = UTPM._broadcast_arrays(self.data, rhs.reshape((1,1)+rhs_shape))
             return UTPM(x_data / y_data)
 
+        if not isinstance(rhs, UTPM):
+            return NotImplemented     # e.g. a traced value: Python tries its reflected operator
         x_data, y_data = UTPM._broadcast_arrays(self.data, rhs.data)
         dtype = numpy.promote_types(x_data.dtype, y_data.dtype)
         z_data = numpy.zeros(x_data.shape, dtype=dtype)
